@@ -30,6 +30,7 @@ from .loops import LoopMixin
 from .stmts import StmtMixin
 from .ops import is_const, z3bool
 
+DEOPT_ARGS = {"builtins." + n for n in ("len", "sorted", "set", "frozenset", "list", "tuple", "min", "max", "range", "enumerate", "zip", "reversed", "abs", "int", "float", "dict")} | {"fontTools.misc.fixedTools.otRound", "fontTools.misc.roundTools.otRound"}
 LOGGER_NAMES = {"logger", "LOGGER", "log", "timing_logger"}
 MUTATORS = {
     "append", "extend", "insert", "remove", "pop", "clear", "sort", "reverse", "update",
@@ -324,6 +325,8 @@ class Executor(ExprMixin, StmtMixin, LoopMixin):
             m = models.lookup(q, f.obj)
             if m is not None:
                 self.assumptions_used.add(m.name)
+                if q in DEOPT_ARGS:
+                    args = [self.deopt(a, st, node) for a in args]
                 return m.model(self, st, args, kwargs, node)
             # 3. exception / declared classes
             if inspect.isclass(f.obj) and issubclass(f.obj, BaseException):
